@@ -191,8 +191,9 @@ impl Iterator for PkgDB {
                                 let v: Vec<&str> = p.rsplitn(2, '-').collect();
                                 package.path = dir.path();
                                 package.pkgname = p.to_string();
-                                package.pkgbase = v[0].to_string();
-                                package.pkgversion = v[1].to_string();
+                                /* rsplitn() yields the version first */
+                                package.pkgbase = v[1].to_string();
+                                package.pkgversion = v[0].to_string();
                                 return Some(Ok(package));
                             }
                             _ => {
